@@ -276,4 +276,723 @@ theorem atoi_pad2 (k : Nat) (hk : k < 100) : atoi (pad2 k) = some (k : Int) := b
   congr 1
   omega
 
+/-! ## one element -/
+
+/-- every shape of the element starts with a byte that is not a blank (all elements but `_2`) -/
+def plainStd (s : Std) : Bool := (symStd s).all (fun v => match v with | x :: _ => !inCls x 32 | [] => false)
+
+theorem plain_of_shape {s : Std} {i : XInst} (hi : ValidX i) {txt : Bytes} (ht : renderStd s i = some txt) (hp : plainStd s = true) :
+    txt ≠ [] ∧ txt.head? ≠ some 32 := by
+  obtain ⟨sh, hsh, hs⟩ := renderStd_shape s i hi txt ht
+  have := List.all_eq_true.mp hp sh hsh
+  cases sh with
+  | nil => simp at this
+  | cons x xs =>
+    cases txt with
+    | nil => simp [hasShape] at hs
+    | cons c t =>
+      simp only [hasShape] at hs
+      refine ⟨by simp, ?_⟩
+      simp only [List.head?_cons, ne_eq, Option.some.injEq]
+      intro e; subst e
+      simp [hs.1] at this
+
+theorem commaOrPeriod_eq (c : UInt8) : commaOrPeriod c = inCls [(44, 44), (46, 46)] c := by
+  have h1 := inCls_bS 44 c
+  have h2 := inCls_bS 46 c
+  simp only [inCls, bS, List.any_cons, List.any_nil, Bool.or_false] at h1 h2 ⊢
+  rw [h1, h2, commaOrPeriod, Bool.or_comm]
+
+/-- the result type of the per-element lemma -/
+def ElemOK (s : Std) (i : XInst) (next : Option Std) (R : Bytes) (f : F) (txt : Bytes) : Prop :=
+  renderStd s i = some txt ∧ txt ≠ [] ∧
+    ∀ val, (val = txt ++ R ∨ val = cutspace (txt ++ R)) → parseStd s next val f = some (setStdX s i f, R)
+
+theorem elem_plain {s : Std} {i : XInst} (hi : ValidX i) {next : Option Std} {R : Bytes} {f : F} {txt : Bytes}
+    (ht : renderStd s i = some txt) (hp : plainStd s = true)
+    (h : parseStd s next (txt ++ R) f = some (setStdX s i f, R)) : ElemOK s i next R f txt := by
+  obtain ⟨hne, hh⟩ := plain_of_shape hi ht hp
+  exact ⟨ht, hne, fun val hv => by rw [plain_vals hne hh hv]; exact h⟩
+
+theorem elem_numeric (s : Std) (hs : numericStd s = true) (hns : s ≠ .zeroSecond) (i : XInst) (hi : ValidX i) (next : Option Std)
+    (R : Bytes) (f : F) : ∃ txt, ElemOK s i next R f txt := by
+  obtain ⟨txt, hfmt, hhead, _, hparse⟩ := parseStd_format s hs i.toInst (validInst_of_validX hi) next R f (fun e => absurd e hns)
+  have hr : renderStd s i = some txt := by
+    cases s <;> simp [numericStd] at hs <;> simpa [renderStd] using hfmt
+  have hset : setStd s i.toInst f = setStdX s i f := by
+    cases s <;> simp [numericStd] at hs <;> rfl
+  have hne : txt ≠ [] := by
+    intro e; subst e
+    cases s <;> simp [numericStd] at hs <;> simp [formatStd, pad2, pad4] at hfmt
+  refine ⟨txt, hr, hne, fun val hv => ?_⟩
+  rw [plain_vals hne hhead hv, hparse, hset]
+
+theorem elem_zeroSecond (i : XInst) (hi : ValidX i) (next : Option Std) (R : Bytes) (f : F) (hf : FollowOK .zeroSecond next R) :
+    ElemOK .zeroSecond i next R f (pad2 i.sec) := by
+  have hse : i.sec < 60 := hi.2.2.2.2.2.2.2.2.1
+  apply elem_plain hi (by simp [renderStd, formatStd]) (by decide)
+  simp only [parseStd, getnum_pad2 i.sec (by omega), setStdX]
+  have hrange : (decide ((i.sec : Int) < 0) || decide ((60 : Int) ≤ i.sec)) = false := by simp; omega
+  simp only [hrange, Bool.false_eq_true, if_false]
+  -- the look-ahead for a fraction
+  cases hcond : (decide (R.length ≥ 2) && commaOrPeriod (R.headD 0) && isDigitAt R 1) with
+  | false => simp only [Bool.false_eq_true, if_false]
+  | true =>
+    simp only [if_true]
+    have hcond' := hcond
+    simp only [Bool.and_eq_true] at hcond'
+    obtain ⟨⟨hl, hcp⟩, _⟩ := hcond'
+    cases R with
+    | nil => simp at hl
+    | cons c t =>
+      have hbad := hf c rfl
+      simp only [List.headD_cons] at hcp
+      have hno : ∀ (nx : Option Std), (∀ n, nx ≠ some (.frac9 n)) → inCls (badSet .zeroSecond nx) c = false → False := by
+        intro nx hnx hb
+        have : badSet .zeroSecond nx = [(44, 44), (46, 46)] := by
+          cases nx with
+          | none => rfl
+          | some n => cases n <;> first | rfl | exact absurd rfl (hnx _)
+        rw [this, ← commaOrPeriod_eq, hcp] at hb; cases hb
+      cases next with
+      | none => exact absurd hbad (fun h => hno none (fun n => by simp) h)
+      | some n =>
+        cases n <;> first
+          | rfl
+          | exact absurd hbad (fun h => hno _ (fun n => by simp) h)
+
+theorem follow_digit {s : Std} {next : Option Std} {R : Bytes} (hb : badSet s next = dS) (hf : FollowOK s next R) :
+    R = [] ∨ ∃ c t, R = c :: t ∧ isDig c = false :=
+  not_digit_of_follow (fun c hc => by have := hf c hc; rwa [hb] at this)
+
+theorem hour12Of_le (h : Nat) : 1 ≤ hour12Of h ∧ hour12Of h ≤ 12 := by
+  by_cases h0 : h % 12 = 0 <;> simp [hour12Of, h0] <;> omega
+
+theorem beq_h12 : (Std.hour12 == Std.zeroHour12) = false := by decide
+theorem beq_day : (Std.day == Std.zeroDay) = false := by decide
+theorem beq_dayu : (Std.day == Std.underDay) = false := by decide
+theorem beq_nm : (Std.numMonth == Std.zeroMonth) = false := by decide
+theorem beq_ud : (Std.underDay == Std.zeroDay) = false := by decide
+
+theorem elem_year (i : XInst) (hi : ValidX i) (next : Option Std) (R : Bytes) (f : F) :
+    ElemOK .year i next R f (pad2 (i.year % 100)) := by
+  apply elem_plain hi (by simp [renderStd, formatStd]) (by decide)
+  have hlen : ¬ ((pad2 (i.year % 100) ++ R).length < 2) := by simp [pad2]
+  have htake : (pad2 (i.year % 100) ++ R).take 2 = pad2 (i.year % 100) := by simp [pad2]
+  have hdrop : (pad2 (i.year % 100) ++ R).drop 2 = R := by simp [pad2]
+  simp only [parseStd, hlen, if_false, htake, hdrop, atoi_pad2 (i.year % 100) (by omega), Option.map_some, setStdX, pivotYear]
+  congr 3
+  split <;> split <;> omega
+
+theorem elem_zeroHour12 (i : XInst) (hi : ValidX i) (next : Option Std) (R : Bytes) (f : F) :
+    ElemOK .zeroHour12 i next R f (pad2 (hour12Of i.hour)) := by
+  apply elem_plain hi (by simp [renderStd, formatStd]) (by decide)
+  have := hour12Of_le i.hour
+  simp only [parseStd, getnum_pad2 (hour12Of i.hour) (by omega), Option.bind, setStdX]
+  have hr : (decide (((hour12Of i.hour : Nat) : Int) < 0) || decide ((12 : Int) < (hour12Of i.hour : Nat))) = false := by simp; omega
+  simp [hr]
+
+theorem elem_hour12 (i : XInst) (hi : ValidX i) (next : Option Std) (R : Bytes) (f : F) (hf : FollowOK .hour12 next R) :
+    ElemOK .hour12 i next R f (num12 (hour12Of i.hour)) := by
+  apply elem_plain hi (by simp [renderStd, formatStd]) (by decide)
+  have := hour12Of_le i.hour
+  simp only [parseStd, beq_h12, getnum_num12 (hour12Of i.hour) (by omega) R (follow_digit rfl hf), Option.bind, setStdX]
+  have hr : (decide (((hour12Of i.hour : Nat) : Int) < 0) || decide ((12 : Int) < (hour12Of i.hour : Nat))) = false := by simp; omega
+  simp [hr]
+
+theorem day_le_31 {i : XInst} (hi : ValidX i) : i.day ≤ 31 := by
+  obtain ⟨_, _, _, _, _, hdd, _⟩ := hi
+  have : daysIn i.month i.year ≤ 31 := (daysIn_bounds _ _).2.1
+  omega
+
+theorem elem_day (i : XInst) (hi : ValidX i) (next : Option Std) (R : Bytes) (f : F) (hf : FollowOK .day next R) :
+    ElemOK .day i next R f (num12 i.day) := by
+  apply elem_plain hi (by simp [renderStd, formatStd]) (by decide)
+  have := day_le_31 hi
+  simp [parseStd, beq_day, beq_dayu, getnum_num12 i.day (by omega) R (follow_digit rfl hf), setStdX]
+
+theorem elem_numMonth (i : XInst) (hi : ValidX i) (next : Option Std) (R : Bytes) (f : F) (hf : FollowOK .numMonth next R) :
+    ElemOK .numMonth i next R f (num12 i.month) := by
+  apply elem_plain hi (by simp [renderStd, formatStd]) (by decide)
+  have hm1 : 1 ≤ i.month := hi.2.2.1
+  have hm12 : i.month ≤ 12 := hi.2.2.2.1
+  simp only [parseStd, beq_nm, getnum_num12 i.month (by omega) R (follow_digit rfl hf), Option.bind, setStdX]
+  have hr : (decide ((i.month : Int) ≤ 0) || decide ((12 : Int) < i.month)) = false := by simp; omega
+  simp [hr]
+  omega
+
+theorem elem_underDay (i : XInst) (hi : ValidX i) (next : Option Std) (R : Bytes) (f : F) (hf : FollowOK .underDay next R) :
+    ElemOK .underDay i next R f (if i.day < 10 then [32, dig i.day] else pad2 i.day) := by
+  have hd31 := day_le_31 hi
+  have hR := follow_digit (s := .underDay) (next := next) rfl hf
+  refine ⟨by simp [renderStd, formatStd], by split <;> simp [pad2], fun val hv => ?_⟩
+  by_cases h10 : i.day < 10
+  · simp only [h10, if_true] at hv
+    have e : i.day % 10 = i.day := by omega
+    have hg := getnum_one i.day R hR
+    rw [e] at hg
+    have hcs : cutspace ([32, dig i.day] ++ R) = dig i.day :: R := by
+      have hne : (dig i.day == 32) = false := beq_false_of_ne (dig_ne_blank _)
+      simp [cutspace, List.dropWhile, hne]
+    rcases hv with hv | hv
+    · subst hv
+      simp [parseStd, beq_ud, hg, setStdX]
+    · rw [hcs] at hv; subst hv
+      have hne : (some (dig i.day) == some (32 : UInt8)) = false := by
+        apply beq_false_of_ne; intro e; exact dig_ne_blank _ (Option.some.inj e)
+      simp [parseStd, beq_ud, hne, hg, setStdX]
+  · simp only [h10, if_false] at hv
+    have hv' := plain_vals (pad2_ne_nil _) (pad2_head _) hv
+    subst hv'
+    have hne : ((pad2 i.day ++ R).head? == some 32) = false := by
+      simp only [pad2, List.cons_append, List.head?_cons]
+      apply beq_false_of_ne; intro e; exact dig_ne_blank _ (Option.some.inj e)
+    simp only [parseStd, beq_ud, hne, beq_self_eq_true, Bool.true_and, Bool.false_eq_true, if_false,
+      getnum_pad2 i.day (by omega), Option.map_some, setStdX]
+
+theorem elem_name (s : Std) (tab : List Bytes) (hdist : distinctBefore tab = true) (k : Nat) (i : XInst) (hi : ValidX i)
+    (next : Option Std) (R : Bytes) (f : F) (txt : Bytes) (hp : plainStd s = true)
+    (hr : renderStd s i = some txt) (htab : tab[k]? = some txt)
+    (hparse : ∀ v, parseStd s next (txt ++ v) f = (lookup tab (txt ++ v)).map (fun p => (setStdX s i f, p.2)) ∨
+      parseStd s next (txt ++ v) f = (lookup tab (txt ++ v)).map (fun p => ({ f with month := (p.1 : Int) + 1 }, p.2))
+        ∧ setStdX s i f = { f with month := (k : Int) + 1 }) :
+    ElemOK s i next R f txt := by
+  apply elem_plain hi hr hp
+  rcases hparse R with h | ⟨h, hs⟩
+  · rw [h, lookup_hit hdist htab]; rfl
+  · rw [h, lookup_hit hdist htab, hs]; rfl
+
+theorem elem_month (i : XInst) (hi : ValidX i) (next : Option Std) (R : Bytes) (f : F) :
+    ∃ txt, ElemOK .month i next R f txt := by
+  have hm1 : 1 ≤ i.month := hi.2.2.1
+  have hm12 : i.month ≤ 12 := hi.2.2.2.1
+  have hlt : i.month - 1 < shortMonths.length := by simp [shortMonths]; omega
+  refine ⟨shortMonths[i.month - 1], elem_name .month shortMonths tables_distinct.1 (i.month - 1) i hi next R f _ (by decide)
+    (by simp [renderStd, formatStd, List.getElem?_eq_getElem hlt]) (List.getElem?_eq_getElem hlt) (fun v => Or.inr ⟨rfl, ?_⟩)⟩
+  simp only [setStdX]; congr 1; omega
+
+theorem elem_longMonth (i : XInst) (hi : ValidX i) (next : Option Std) (R : Bytes) (f : F) :
+    ∃ txt, ElemOK .longMonth i next R f txt := by
+  have hm1 : 1 ≤ i.month := hi.2.2.1
+  have hm12 : i.month ≤ 12 := hi.2.2.2.1
+  have hlt : i.month - 1 < longMonths.length := by simp [longMonths]; omega
+  refine ⟨longMonths[i.month - 1], elem_name .longMonth longMonths tables_distinct.2.1 (i.month - 1) i hi next R f _ (by decide)
+    (by simp [renderStd, formatStd, List.getElem?_eq_getElem hlt]) (List.getElem?_eq_getElem hlt) (fun v => Or.inr ⟨rfl, ?_⟩)⟩
+  simp only [setStdX]; congr 1; omega
+
+theorem elem_weekDay (i : XInst) (hi : ValidX i) (next : Option Std) (R : Bytes) (f : F) :
+    ∃ txt, ElemOK .weekDay i next R f txt := by
+  have hwd : i.wd < 7 := hi.2.2.2.2.2.2.2.2.2.1
+  have hlt : i.wd < shortDays.length := by simp [shortDays]; omega
+  exact ⟨shortDays[i.wd], elem_name .weekDay shortDays tables_distinct.2.2.1 i.wd i hi next R f _ (by decide)
+    (by simp [renderStd, formatStd, List.getElem?_eq_getElem hlt]) (List.getElem?_eq_getElem hlt) (fun v => Or.inl rfl)⟩
+
+theorem elem_longWeekDay (i : XInst) (hi : ValidX i) (next : Option Std) (R : Bytes) (f : F) :
+    ∃ txt, ElemOK .longWeekDay i next R f txt := by
+  have hwd : i.wd < 7 := hi.2.2.2.2.2.2.2.2.2.1
+  have hlt : i.wd < longDays.length := by simp [longDays]; omega
+  exact ⟨longDays[i.wd], elem_name .longWeekDay longDays tables_distinct.2.2.2 i.wd i hi next R f _ (by decide)
+    (by simp [renderStd, formatStd, List.getElem?_eq_getElem hlt]) (List.getElem?_eq_getElem hlt) (fun v => Or.inl rfl)⟩
+
+theorem elem_pm (i : XInst) (hi : ValidX i) (next : Option Std) (R : Bytes) (f : F) :
+    ∃ txt, ElemOK .pm i next R f txt := by
+  by_cases h : i.hour ≥ 12
+  · refine ⟨[80, 77], elem_plain hi (by simp [renderStd, formatStd, h]) (by decide) ?_⟩
+    simp [parseStd, setStdX, h]
+  · refine ⟨[65, 77], elem_plain hi (by simp [renderStd, formatStd, h]) (by decide) ?_⟩
+    simp [parseStd, setStdX, h]
+
+/-! ### zones -/
+
+theorem getnum_pad2_nil (n : Nat) (hn : n < 100) : getnum (pad2 n) true = some ((n : Int), []) := by
+  have := getnum_pad2 n hn true []
+  simpa using this
+
+theorem offMin_cases (i : XInst) : (i.offMin < 0 ∧ ((i.offMin.natAbs : Nat) : Int) = -i.offMin) ∨
+    (¬ i.offMin < 0 ∧ ((i.offMin.natAbs : Nat) : Int) = i.offMin) := by
+  by_cases h : i.offMin < 0
+  · exact Or.inl ⟨h, by omega⟩
+  · exact Or.inr ⟨h, by omega⟩
+
+theorem numTZ_plain (f : F) (sg : UInt8) (hh mm : Nat) (R : Bytes) (h1 : hh ≤ 24) (h2 : mm ≤ 60) :
+    numTZ f .numTZ (sg :: (pad2 hh ++ pad2 mm) ++ R) =
+      if sg = 43 then some ({ f with zoneOffset := some (((hh : Int) * 60 + mm) * 60) }, R)
+      else if sg = 45 then some ({ f with zoneOffset := some (-(((hh : Int) * 60 + mm) * 60)) }, R) else none := by
+  have hc : (Std.numTZ == Std.numColonTZ || Std.numTZ == Std.isoColonTZ) = false := by decide
+  have hs : (Std.numTZ == Std.numShortTZ || Std.numTZ == Std.isoShortTZ) = false := by decide
+  have hlen : ¬ ((sg :: (pad2 hh ++ pad2 mm) ++ R).length < 5) := by simp [pad2]
+  have hhh : ((sg :: (pad2 hh ++ pad2 mm) ++ R).drop 1).take 2 = pad2 hh := by simp [pad2]
+  have hmm : ((sg :: (pad2 hh ++ pad2 mm) ++ R).drop 3).take 2 = pad2 mm := by simp [pad2]
+  have hdrop : (sg :: (pad2 hh ++ pad2 mm) ++ R).drop 5 = R := by simp [pad2]
+  have hrange : (decide ((hh : Int) > 24) || decide ((mm : Int) > 60)) = false := by simp; omega
+  simp only [numTZ, hc, hs, Bool.false_eq_true, if_false, hlen, Bool.false_and, hhh, hmm, hdrop,
+    getnum_pad2_nil hh (by omega), getnum_pad2_nil mm (by omega), hrange]
+  simp only [List.cons_append, List.head?_cons]
+  by_cases e1 : sg = 43
+  · subst e1; simp
+  · by_cases e2 : sg = 45
+    · subst e2; simp
+    · have n1 : (some sg == some (43 : UInt8)) = false := by
+        apply beq_false_of_ne; intro e; exact e1 (Option.some.inj e)
+      have n2 : (some sg == some (45 : UInt8)) = false := by
+        apply beq_false_of_ne; intro e; exact e2 (Option.some.inj e)
+      simp [e1, e2, n1, n2]
+
+theorem numTZ_colon (f : F) (sg : UInt8) (hh mm : Nat) (R : Bytes) (h1 : hh ≤ 24) (h2 : mm ≤ 60) :
+    numTZ f .numColonTZ (sg :: (pad2 hh ++ 58 :: pad2 mm) ++ R) =
+      if sg = 43 then some ({ f with zoneOffset := some (((hh : Int) * 60 + mm) * 60) }, R)
+      else if sg = 45 then some ({ f with zoneOffset := some (-(((hh : Int) * 60 + mm) * 60)) }, R) else none := by
+  have hc : (Std.numColonTZ == Std.numColonTZ || Std.numColonTZ == Std.isoColonTZ) = true := by decide
+  have hlen : ¬ ((sg :: (pad2 hh ++ 58 :: pad2 mm) ++ R).length < 6) := by simp [pad2]
+  have hcol : ((sg :: (pad2 hh ++ 58 :: pad2 mm) ++ R)[3]? != some 58) = false := by simp [pad2]
+  have hhh : ((sg :: (pad2 hh ++ 58 :: pad2 mm) ++ R).drop 1).take 2 = pad2 hh := by simp [pad2]
+  have hmm : ((sg :: (pad2 hh ++ 58 :: pad2 mm) ++ R).drop 4).take 2 = pad2 mm := by simp [pad2]
+  have hdrop : (sg :: (pad2 hh ++ 58 :: pad2 mm) ++ R).drop 6 = R := by simp [pad2]
+  have hrange : (decide ((hh : Int) > 24) || decide ((mm : Int) > 60)) = false := by simp; omega
+  simp only [numTZ, hc, if_true, hlen, if_false, hcol, Bool.true_and, Bool.false_eq_true, hhh, hmm, hdrop,
+    getnum_pad2_nil hh (by omega), getnum_pad2_nil mm (by omega), hrange]
+  simp only [List.cons_append, List.head?_cons]
+  by_cases e1 : sg = 43
+  · subst e1; simp
+  · by_cases e2 : sg = 45
+    · subst e2; simp
+    · have n1 : (some sg == some (43 : UInt8)) = false := by
+        apply beq_false_of_ne; intro e; exact e1 (Option.some.inj e)
+      have n2 : (some sg == some (45 : UInt8)) = false := by
+        apply beq_false_of_ne; intro e; exact e2 (Option.some.inj e)
+      simp [e1, e2, n1, n2]
+
+theorem elem_numTZ (i : XInst) (hi : ValidX i) (next : Option Std) (R : Bytes) (f : F) :
+    ∃ txt, ElemOK .numTZ i next R f txt := by
+  have hoff : i.offMin.natAbs < 1440 := hi.2.2.2.2.2.2.2.2.2.2.2.2.2.2.1
+  refine ⟨(if i.offMin < 0 then 45 else 43) :: (pad2 (i.offMin.natAbs / 60) ++ pad2 (i.offMin.natAbs % 60)),
+    elem_plain hi (by simp only [renderStd]) (by decide) ?_⟩
+  simp only [parseStd, numTZ_plain f _ _ _ R (by omega : i.offMin.natAbs / 60 ≤ 24) (by omega : i.offMin.natAbs % 60 ≤ 60), setStdX]
+  rcases offMin_cases i with ⟨hneg, habs⟩ | ⟨hneg, habs⟩
+  · simp only [hneg, if_true]; simp; omega
+  · simp only [hneg, if_false]; simp; omega
+
+theorem elem_numColonTZ (i : XInst) (hi : ValidX i) (next : Option Std) (R : Bytes) (f : F) :
+    ∃ txt, ElemOK .numColonTZ i next R f txt := by
+  have hoff : i.offMin.natAbs < 1440 := hi.2.2.2.2.2.2.2.2.2.2.2.2.2.2.1
+  refine ⟨(if i.offMin < 0 then 45 else 43) :: (pad2 (i.offMin.natAbs / 60) ++ 58 :: pad2 (i.offMin.natAbs % 60)),
+    elem_plain hi (by simp only [renderStd]) (by decide) ?_⟩
+  simp only [parseStd, numTZ_colon f _ _ _ R (by omega : i.offMin.natAbs / 60 ≤ 24) (by omega : i.offMin.natAbs % 60 ≤ 60), setStdX]
+  rcases offMin_cases i with ⟨hneg, habs⟩ | ⟨hneg, habs⟩
+  · simp only [hneg, if_true]; simp; omega
+  · simp only [hneg, if_false]; simp; omega
+
+/-! ### the zone abbreviation -/
+
+theorem badTZ_eq (c : UInt8) : inCls (badSet .tz none) c = (isUpperB c || c == 43 || c == 45) := by
+  have h1 := inCls_bS 43 c
+  have h2 := inCls_bS 45 c
+  simp only [inCls, bS, List.any_cons, List.any_nil, Bool.or_false] at h1 h2
+  simp only [badSet, inCls, List.any_cons, List.any_nil, Bool.or_false, h1, h2, isUpperB, Bool.or_assoc]
+
+theorem upper_facts {c : UInt8} (h : isUpperB c = true) : c ≠ 104 ∧ c ≠ 101 ∧ c ≠ 43 ∧ c ≠ 45 ∧ c ≠ 32 := by
+  simp only [isUpperB, Bool.and_eq_true, decide_eq_true_eq, UInt8.le_iff_toNat_le] at h
+  have e65 : (65 : UInt8).toNat = 65 := rfl
+  have e90 : (90 : UInt8).toNat = 90 := rfl
+  rw [e65, e90] at h
+  refine ⟨?_, ?_, ?_, ?_, ?_⟩ <;> (intro e; subst e; simp at h)
+
+theorem elem_tz (i : XInst) (hi : ValidX i) (next : Option Std) (R : Bytes) (f : F) (hf : FollowOK .tz next R) :
+    ElemOK .tz i next R f i.zname := by
+  obtain ⟨a, b, c, hz, ha, hb, hc⟩ := hi.2.2.2.2.2.2.2.2.2.2.2.2.2.2.2
+  apply elem_plain hi (by simp only [renderStd]) (by decide)
+  -- what follows
+  have hR : R = [] ∨ ∃ x t, R = x :: t ∧ isUpperB x = false ∧ x ≠ 43 ∧ x ≠ 45 := by
+    cases R with
+    | nil => exact Or.inl rfl
+    | cons x t =>
+      have := hf x rfl
+      have hb' : badSet .tz next = badSet .tz none := rfl
+      rw [hb', badTZ_eq] at this
+      simp only [Bool.or_eq_false_iff, beq_eq_false_iff_ne, ne_eq] at this
+      exact Or.inr ⟨x, t, rfl, this.1.1, this.1.2, this.2⟩
+  rw [hz]
+  by_cases hutc : i.zname = bUTC
+  · rw [hz] at hutc
+    simp only [bUTC, List.cons.injEq, and_true] at hutc
+    obtain ⟨rfl, rfl, rfl⟩ := hutc
+    simp [parseStd, hasPrefix, bUTC, setStdX, hz]
+  · have hnp : hasPrefix ([a, b, c] ++ R) bUTC = false := by
+      rw [hz] at hutc
+      simp only [bUTC, List.cons.injEq, and_true, not_and] at hutc
+      simp only [hasPrefix, bUTC, List.cons_append, List.nil_append, Bool.and_true]
+      by_cases e1 : a = 85
+      · by_cases e2 : b = 84
+        · have := hutc e1 e2
+          simp [e1, e2, this]
+        · simp [e2]
+      · simp [e1]
+    obtain ⟨hb104, hb101, _, _, _⟩ := upper_facts hb
+    obtain ⟨_, _, ha43, ha45, _⟩ := upper_facts ha
+    have hch : hasPrefix ([a, b, c] ++ R) [67, 104, 83, 84] = false := by simp [hasPrefix, hb104]
+    have hme : hasPrefix ([a, b, c] ++ R) [77, 101, 83, 84] = false := by simp [hasPrefix, hb101]
+    have hlen : ¬ (([a, b, c] ++ R).length < 3) := by simp
+    have hso : parseSignedOffset R = 0 := by
+      rcases hR with h | ⟨x, t, h, _, h43, h45⟩
+      · subst h; rfl
+      · subst h; simp [parseSignedOffset, h43, h45]
+    have hnup : (((([a, b, c] ++ R).take 6).takeWhile isUpperB).length) = 3 := by
+      rcases hR with h | ⟨x, t, h, hx, _, _⟩
+      · subst h; simp [List.takeWhile, ha, hb, hc]
+      · subst h; simp [List.takeWhile, ha, hb, hc, hx]
+    have hname : parseTZName ([a, b, c] ++ R) = some 3 := by
+      simp only [parseTZName, hlen, if_false, hch, hme, Bool.or_self, Bool.false_eq_true]
+      by_cases hg : hasPrefix ([a, b, c] ++ R) bGMT = true
+      · simp only [hg, if_true]
+        split
+        · rfl
+        · have : ([a, b, c] ++ R).drop 3 = R := by simp
+          rw [this, hso]
+      · have hg' : hasPrefix ([a, b, c] ++ R) bGMT = false := by simpa using hg
+        have hs1 : (([a, b, c] ++ R).head? == some 43) = false := by
+          simp only [List.cons_append, List.head?_cons]; apply beq_false_of_ne; intro e; exact ha43 (Option.some.inj e)
+        have hs2 : (([a, b, c] ++ R).head? == some 45) = false := by
+          simp only [List.cons_append, List.head?_cons]; apply beq_false_of_ne; intro e; exact ha45 (Option.some.inj e)
+        simp only [hg', Bool.false_eq_true, if_false, hs1, hs2, Bool.or_self, hnup]
+        simp
+    simp only [parseStd, hnp, Bool.false_eq_true, if_false, hname, setStdX, hutc]
+    simp [hz]
+
+/-! ### the fraction -/
+
+theorem padN_length : ∀ (k n : Nat), (padN k n).length = k
+  | 0, _ => rfl
+  | k + 1, n => by simp [padN, padN_length k]
+
+theorem padN_allDig : ∀ (k n : Nat), ∀ c ∈ padN k n, isDig c = true
+  | 0, _, c, h => by simp [padN] at h
+  | k + 1, n, c, h => by
+    simp only [padN, List.mem_append, List.mem_singleton] at h
+    rcases h with h | h
+    · exact padN_allDig k _ c h
+    · subst h; exact isDig_dig n
+
+theorem takeWhile_digits : ∀ (ds R : Bytes), (∀ c ∈ ds, isDig c = true) → (R = [] ∨ ∃ c t, R = c :: t ∧ isDig c = false) →
+    (ds ++ R).takeWhile isDig = ds
+  | [], R, _, hR => by
+    rcases hR with h | ⟨c, t, h, hc⟩
+    · subst h; rfl
+    · subst h; simp [List.takeWhile, hc]
+  | d :: ds, R, h, hR => by
+    have hd : isDig d = true := h d (List.mem_cons_self ..)
+    simp only [List.cons_append, List.takeWhile, hd]
+    rw [takeWhile_digits ds R (fun c hc => h c (List.mem_cons_of_mem _ hc)) hR]
+
+/-- the value of a digit string under `atoi`'s fold -/
+def dfold (a : Int) (c : UInt8) : Int := a * 10 + dval c
+
+theorem foldl_padN : ∀ (k n : Nat) (a : Int), (padN k n).foldl dfold a = a * (10 : Int) ^ k + ((n % 10 ^ k : Nat) : Int)
+  | 0, n, a => by simp [padN, Nat.mod_one]
+  | k + 1, n, a => by
+    rw [padN, List.foldl_append, foldl_padN k (n / 10) a]
+    simp only [List.foldl_cons, List.foldl_nil, dfold, dval_dig]
+    have e : n % 10 ^ (k + 1) = (n / 10 % 10 ^ k) * 10 + n % 10 := by
+      rw [Nat.pow_succ, Nat.mul_comm, Nat.mod_mul, Nat.add_comm, Nat.mul_comm]
+    rw [e, Int.pow_succ]
+    push_cast
+    rw [Int.add_mul, Int.mul_assoc, Int.add_assoc]
+
+theorem atoi_padN (k n : Nat) (hk : 1 ≤ k) (hn : n < 10 ^ k) : atoi (padN k n) = some (n : Int) := by
+  cases hp : padN k n with
+  | nil => have := padN_length k n; rw [hp] at this; simp at this; omega
+  | cons c r =>
+    have hall : ∀ x ∈ c :: r, isDig x = true := by rw [← hp]; exact padN_allDig k n
+    have hc : isDig c = true := hall c (List.mem_cons_self ..)
+    have h45 : (c == 45) = false := by apply beq_false_of_ne; intro e; subst e; simp [isDig] at hc
+    have h43 : (c == 43) = false := by apply beq_false_of_ne; intro e; subst e; simp [isDig] at hc
+    have hall' : (c :: r).all isDig = true := by rw [List.all_eq_true]; exact hall
+    have hf := foldl_padN k n 0
+    rw [hp] at hf
+    have hf' : (c :: r).foldl (fun a c => a * 10 + dval c) 0 = (n : Int) := by
+      have : (c :: r).foldl dfold 0 = (c :: r).foldl (fun a c => a * 10 + dval c) 0 := rfl
+      rw [← this, hf, Nat.mod_eq_of_lt hn]; simp
+    simp only [atoi, h45, h43, Bool.false_eq_true, if_false, List.isEmpty_cons, hall', Bool.not_true, Bool.or_self, hf']
+
+theorem take_frac (l R : Bytes) : ((46 :: l ++ R).take (1 + l.length)).drop 1 = l := by
+  rw [Nat.add_comm, List.cons_append, List.take_succ_cons, List.drop_succ_cons, List.drop_zero]
+  simp
+
+theorem drop_frac (l R : Bytes) : (46 :: l ++ R).drop (1 + l.length) = R := by
+  rw [Nat.add_comm, List.cons_append, List.drop_succ_cons]
+  simp
+
+theorem elem_frac9 (n : Nat) (i : XInst) (hi : ValidX i) (next : Option Std) (R : Bytes) (f : F) (hf : FollowOK (.frac9 n) next R) :
+    ElemOK (.frac9 n) i next R f (46 :: padN i.fracDigits (i.nsec / 10 ^ (9 - i.fracDigits))) := by
+  have hi' := hi
+  obtain ⟨_, _, _, _, _, _, _, _, _, _, hf3, hf9, hns, hnsm, _⟩ := hi
+  have hR := follow_digit (s := .frac9 n) (next := next) rfl hf
+  apply elem_plain hi' (by simp only [renderStd]) (by rfl)
+  clear hi'
+  generalize hq : i.nsec / 10 ^ (9 - i.fracDigits) = q
+  generalize hk : i.fracDigits = k at *
+  have hqlt : q < 10 ^ k := by
+    rw [← hq]
+    apply Nat.div_lt_of_lt_mul
+    rw [← Nat.pow_add]
+    have : 9 - k + k = 9 := by omega
+    rw [this]; exact hns
+  have hmul : q * 10 ^ (9 - k) = i.nsec := by
+    rw [← hq]; exact Nat.div_mul_cancel (Nat.dvd_of_mod_eq_zero hnsm)
+  have hlenp := padN_length k q
+  have hdr : digitRun ((46 :: padN k q ++ R).drop 1) = padN k q := by
+    simp only [List.cons_append, List.drop_succ_cons, List.drop_zero, digitRun]
+    exact takeWhile_digits _ _ (padN_allDig k q) hR
+  -- the guard: at least two bytes, a period, then a digit
+  cases hp : padN k q with
+  | nil => rw [hp] at hlenp; simp at hlenp; omega
+  | cons d ds =>
+    have hd : isDig d = true := by
+      have := padN_allDig k q d (by rw [hp]; exact List.mem_cons_self ..)
+      exact this
+    have hguard : (decide ((46 :: (d :: ds) ++ R).length < 2) || !commaOrPeriod ((46 :: (d :: ds) ++ R).headD 0) ||
+        !isDigitAt (46 :: (d :: ds) ++ R) 1) = false := by
+      simp [commaOrPeriod, isDigitAt, hd]
+    rw [hp] at hdr hlenp
+    have htake : ((46 :: (d :: ds) ++ R).take (1 + (d :: ds).length)).drop 1 = d :: ds := take_frac _ _
+    have hdropR : (46 :: (d :: ds) ++ R).drop (1 + (d :: ds).length) = R := drop_frac _ _
+    have hnb : ¬ (1 + (d :: ds).length > 10) := by rw [hlenp]; omega
+    have hat : atoi (d :: ds) = some (q : Int) := by rw [← hp]; exact atoi_padN k q (by omega) hqlt
+    have hnanos : parseNanos (46 :: (d :: ds) ++ R) (1 + (d :: ds).length) = some (((i.nsec : Nat) : Int), false) := by
+      have hcp : commaOrPeriod 46 = true := by decide
+      simp only [parseNanos, List.cons_append, hcp, Bool.not_true, Bool.false_eq_true, if_false, hnb]
+      have htake' : List.drop 1 (List.take (1 + (d :: ds).length) (46 :: d :: (ds ++ R))) = d :: ds := htake
+      rw [htake', hat]
+      have hq0 : ¬ ((q : Int) < 0) := by omega
+      simp only [hq0, if_false]
+      congr 2
+      rw [hlenp]
+      have : 10 - (1 + k) = 9 - k := by omega
+      rw [this, ← hmul]; push_cast; rfl
+    simp only [parseStd, hguard, Bool.false_eq_true, if_false, hdr, hnanos, hdropR, setStdX]
+
+/-! ## all elements together -/
+
+theorem parseStd_render (s : Std) (hs : inScope s = true) (i : XInst) (hi : ValidX i) (next : Option Std) (R : Bytes) (f : F)
+    (hf : FollowOK s next R) : ∃ txt, ElemOK s i next R f txt := by
+  cases s <;> simp [inScope, rxAtomsOfStd] at hs
+  case year => exact ⟨_, elem_year i hi next R f⟩
+  case longYear => exact elem_numeric .longYear (by decide) (by decide) i hi next R f
+  case month => exact elem_month i hi next R f
+  case longMonth => exact elem_longMonth i hi next R f
+  case numMonth => exact ⟨_, elem_numMonth i hi next R f hf⟩
+  case zeroMonth => exact elem_numeric .zeroMonth (by decide) (by decide) i hi next R f
+  case weekDay => exact elem_weekDay i hi next R f
+  case longWeekDay => exact elem_longWeekDay i hi next R f
+  case day => exact ⟨_, elem_day i hi next R f hf⟩
+  case underDay => exact ⟨_, elem_underDay i hi next R f hf⟩
+  case zeroDay => exact elem_numeric .zeroDay (by decide) (by decide) i hi next R f
+  case hour => exact elem_numeric .hour (by decide) (by decide) i hi next R f
+  case hour12 => exact ⟨_, elem_hour12 i hi next R f hf⟩
+  case zeroHour12 => exact ⟨_, elem_zeroHour12 i hi next R f⟩
+  case zeroMinute => exact elem_numeric .zeroMinute (by decide) (by decide) i hi next R f
+  case zeroSecond => exact ⟨_, elem_zeroSecond i hi next R f hf⟩
+  case pm => exact elem_pm i hi next R f
+  case numTZ => exact elem_numTZ i hi next R f
+  case numColonTZ => exact elem_numColonTZ i hi next R f
+  case tz => exact ⟨_, elem_tz i hi next R f hf⟩
+  case frac9 n => exact ⟨_, elem_frac9 n i hi next R f hf⟩
+
+/-! ## what can come first in the rest of the text -/
+
+/-- the bytes the text of the remaining items (followed by the tail) can begin with -/
+def firstSet (items : List (Bytes × Std)) (tail : Bytes) : BSet :=
+  match items with
+  | [] => (match tail with | c :: _ => bS c | [] => [])
+  | (c :: _, _) :: _ => bS c
+  | ([], s) :: _ => (symStd s).flatMap (fun v => v.headD [])
+
+theorem inCls_flatMap {α : Type} (l : List α) (g : α → BSet) (c : UInt8) :
+    inCls (l.flatMap g) c = l.any (fun v => inCls (g v) c) := by
+  induction l with
+  | nil => rfl
+  | cons x xs ih =>
+    simp only [List.flatMap_cons, List.any_cons, ← ih]
+    simp only [inCls, List.any_append]
+
+theorem firstSet_sound (i : XInst) (hi : ValidX i) (items : List (Bytes × Std)) (tail body : Bytes)
+    (hb : renderItems items i = some body) (c : UInt8) (hc : (body ++ tail).head? = some c) :
+    inCls (firstSet items tail) c = true := by
+  cases items with
+  | nil =>
+    simp [renderItems] at hb; subst hb
+    cases tail with
+    | nil => simp at hc
+    | cons x t => simp at hc; subst hc; simp [firstSet, inCls_bS]
+  | cons it rest =>
+    obtain ⟨pre, s⟩ := it
+    simp only [renderItems] at hb
+    split at hb
+    · rename_i a b ha _
+      cases hb
+      cases pre with
+      | cons x t => simp at hc; subst hc; simp [firstSet, inCls_bS]
+      | nil =>
+        obtain ⟨sh, hsh, hs⟩ := renderStd_shape s i hi a ha
+        cases a with
+        | nil =>
+          -- an element never renders the empty text
+          have := hasShape_length hs
+          cases sh with
+          | nil =>
+            exfalso
+            have hne : ∀ v ∈ symStd s, v ≠ [] := by
+              cases s <;> simp [symStd]
+            exact hne [] hsh rfl
+          | cons _ _ => simp at this
+        | cons x t =>
+          simp at hc; subst hc
+          cases sh with
+          | nil => simp [hasShape] at hs
+          | cons y ys =>
+            simp only [hasShape] at hs
+            simp only [firstSet, inCls_flatMap, List.any_eq_true]
+            exact ⟨y :: ys, hsh, by simpa using hs.1⟩
+    · cases hb
+
+/-- the static check: nothing the rest can begin with is forbidden after the element -/
+def parseWFItems : List (Bytes × Std) → Bytes → Bool
+  | [], _ => true
+  | (_, s) :: rest, tail =>
+    inScope s && !meets (badSet s (rest.head?.map (·.2))) (firstSet rest tail) && parseWFItems rest tail
+
+/-- **the layouts the round trip holds for** (decidable; true for every layout of both format lists) -/
+def ParseWF (L : Layout) : Bool := parseWFItems L.items L.tail
+
+theorem follow_of_static {s : Std} {next : Option Std} {rest : List (Bytes × Std)} {tail body : Bytes} {i : XInst} (hi : ValidX i)
+    (hb : renderItems rest i = some body) (hm : meets (badSet s next) (firstSet rest tail) = false) :
+    FollowOK s next (body ++ tail) := by
+  intro c hc
+  have hin := firstSet_sound i hi rest tail body hb c hc
+  cases h : inCls (badSet s next) c with
+  | false => rfl
+  | true => rw [meets_of_inCls hin h] at hm; cases hm
+
+theorem parseItems_render (tail : Bytes) (i : XInst) (hi : ValidX i) :
+    ∀ (items : List (Bytes × Std)), parseWFItems items tail = true →
+      ∃ body, renderItems items i = some body ∧ ∀ f, parseItems tail items (body ++ tail) f = some (projectFX items i f)
+  | [], _ => by
+    refine ⟨[], rfl, fun f => ?_⟩
+    have := skipLit_gen tail []
+    simp only [List.append_nil] at this
+    have hnil : (if tail.getLast? = some 32 then cutspace ([] : Bytes) else []) = [] := by split <;> rfl
+    simp [parseItems, this, hnil, projectFX]
+  | (pre, s) :: rest, h => by
+    simp only [parseWFItems, Bool.and_eq_true, Bool.not_eq_true'] at h
+    obtain ⟨⟨hs, hm⟩, hrest⟩ := h
+    obtain ⟨body', hb', hparse'⟩ := parseItems_render tail i hi rest hrest
+    have hf := follow_of_static (s := s) (next := rest.head?.map (·.2)) hi hb' hm
+    refine ⟨pre ++ (Classical.choose (parseStd_render s hs i hi (rest.head?.map (·.2)) (body' ++ tail) {} hf)) ++ body', ?_, ?_⟩
+    · have := (Classical.choose_spec (parseStd_render s hs i hi (rest.head?.map (·.2)) (body' ++ tail) {} hf)).1
+      simp [renderItems, this, hb']
+    · intro f
+      obtain ⟨txt, hr, hne, hp⟩ := parseStd_render s hs i hi (rest.head?.map (·.2)) (body' ++ tail) f hf
+      have hsame : Classical.choose (parseStd_render s hs i hi (rest.head?.map (·.2)) (body' ++ tail) {} hf) = txt := by
+        have h1 := (Classical.choose_spec (parseStd_render s hs i hi (rest.head?.map (·.2)) (body' ++ tail) {} hf)).1
+        rw [hr] at h1; exact (Option.some.inj h1).symm
+      rw [hsame]
+      have e : pre ++ txt ++ body' ++ tail = pre ++ (txt ++ (body' ++ tail)) := by simp [List.append_assoc]
+      rw [e]
+      have hval := hp (if pre.getLast? = some 32 then cutspace (txt ++ (body' ++ tail)) else txt ++ (body' ++ tail))
+        (by split <;> simp)
+      simp only [parseItems, skipLit_gen, hval, hparse']
+      simp [projectFX]
+
+/-! ## the epilogue never fails -/
+
+theorem isLeap_pivot (y : Nat) (h : isLeap (y : Int) = true) : isLeap (pivotYear y) = true := by
+  simp only [isLeap, Bool.and_eq_true, beq_iff_eq, Bool.or_eq_true, bne_iff_ne, ne_eq] at h ⊢
+  simp only [pivotYear]
+  split <;> omega
+
+theorem daysIn_pivot (m : Int) (y : Nat) : daysIn m (y : Int) ≤ daysIn m (pivotYear y) := by
+  simp only [daysIn]
+  by_cases h2 : (m == 2) = true
+  · simp only [h2, if_true]
+    by_cases hl : isLeap (y : Int) = true
+    · simp [hl, isLeap_pivot y hl]
+    · have hl' : isLeap (y : Int) = false := by simpa using hl
+      simp only [hl', Bool.false_eq_true, if_false]
+      split <;> omega
+  · simp [h2]
+
+structure XInv (i : XInst) (f : F) : Prop where
+  year : f.year = 0 ∨ f.year = i.year ∨ f.year = pivotYear i.year
+  month : f.month = -1 ∨ f.month = i.month
+  day : f.day = -1 ∨ f.day = i.day
+
+theorem XInv.set {i : XInst} {f : F} (h : XInv i f) (s : Std) : XInv i (setStdX s i f) := by
+  obtain ⟨a, b, c⟩ := h
+  cases s <;> simp only [setStdX] <;> first
+    | exact ⟨a, b, c⟩
+    | exact ⟨Or.inr (Or.inl rfl), b, c⟩
+    | exact ⟨Or.inr (Or.inr rfl), b, c⟩
+    | exact ⟨a, Or.inr rfl, c⟩
+    | exact ⟨a, b, Or.inr rfl⟩
+    | (split <;> exact ⟨a, b, c⟩)
+
+theorem XInv.fold {i : XInst} : ∀ (items : List (Bytes × Std)) {f : F}, XInv i f → XInv i (projectFX items i f)
+  | [], _, h => h
+  | it :: rest, _, h => by
+    simp only [projectFX, List.foldl_cons]
+    exact XInv.fold rest (h.set it.2)
+
+theorem finish_ok {i : XInst} (hi : ValidX i) {f : F} (h : XInv i f) : ∃ c, finish f = .ok c := by
+  obtain ⟨_, _, hm1, hm12, hd1, hdd, _⟩ := hi
+  obtain ⟨hy, hm, hd⟩ := h
+  have b1 := daysIn_bounds i.month i.year
+  have b2 := daysIn_pivot i.month i.year
+  have key : ¬ ((if f.day < 0 then 1 else f.day) < 1 ∨
+      (if f.day < 0 then 1 else f.day) > daysIn (if f.month < 0 then 1 else f.month) f.year) := by
+    rcases hd with hd | hd
+    · have b := daysIn_bounds (if f.month < 0 then 1 else f.month) f.year
+      simp only [hd]; simp; omega
+    · rw [hd]
+      have hdn : ¬ ((i.day : Int) < 0) := by omega
+      simp only [hdn, if_false]
+      rcases hm with hm | hm
+      · simp only [hm]; simp [daysIn_one]; omega
+      · rw [hm]
+        have hmn : ¬ ((i.month : Int) < 0) := by omega
+        simp only [hmn, if_false]
+        rcases hy with hy | hy | hy
+        · rw [hy]; omega
+        · rw [hy]; omega
+        · rw [hy]; omega
+  simp only [finish]
+  rw [if_neg (by simpa using key)]
+  exact ⟨_, rfl⟩
+
+/-- **the round trip for every layout element of the lists**: the text of a valid instant in a well-formed layout is
+parsed back to Go's epilogue of exactly the fields the layout carries -/
+theorem render_parse_all (L : Layout) (hL : ParseWF L = true) (i : XInst) (hi : ValidX i) :
+    ∃ txt, renderLayout L i = some txt ∧ parseLayout L txt = projectX L i := by
+  obtain ⟨body, hb, hp⟩ := parseItems_render L.tail i hi L.items hL
+  refine ⟨body ++ L.tail, by simp [renderLayout, hb], ?_⟩
+  have hsup : L.supported = true := by
+    simp only [Layout.supported, List.all_eq_true]
+    intro it hit
+    have : ∀ (items : List (Bytes × Std)) (tail : Bytes), parseWFItems items tail = true → ∀ x ∈ items, inScope x.2 = true := by
+      intro items tail
+      induction items with
+      | nil => intro _ x hx; cases hx
+      | cons y ys ih =>
+        intro hwf x hx
+        obtain ⟨p, s⟩ := y
+        simp only [parseWFItems, Bool.and_eq_true] at hwf
+        rcases List.mem_cons.mp hx with e | e
+        · subst e; exact hwf.1.1
+        · exact ih hwf.2 x e
+    have hsc := this L.items L.tail hL it hit
+    cases hs : it.2 <;> simp [hs, inScope, rxAtomsOfStd] at hsc ⊢
+  simp only [parseLayout, hsup, Bool.not_true, Bool.false_eq_true, if_false, hp, projectX]
+
+/-- …and that parse succeeds -/
+theorem projectX_ok (L : Layout) (i : XInst) (hi : ValidX i) : ∃ c, projectX L i = .ok c :=
+  finish_ok hi (XInv.fold L.items ⟨Or.inl rfl, Or.inl rfl, Or.inl rfl⟩)
+
 end Logrange.Date
